@@ -233,13 +233,25 @@ func init() {
 		}
 		x.Comment("store/store.go createSnapshotFingerprint: written to a temp file, then renamed")
 		if fd := x.Func("store", "Store", "createSnapshotFingerprint"); fd != nil {
-			x.DefStrings("fingerprintSteps", x.callSeq(fd.Body, "s.db.DBLastModified", "s.db.FileSize", "rsum.CRC32WithTiming", "fp.WriteToFile", "os.Rename"))
+			x.DefStrings("fingerprintSteps", x.callSeq(fd.Body, "s.db.DBLastModified", "s.db.FileSize", "rsum.CRC32WithTiming", "snapshot.LatestIndexTerm", "fp.WriteToFile", "os.Rename"))
+			// the marker records which snapshot it was written for
+			var rec []string
+			ast.Inspect(fd.Body, func(n ast.Node) bool {
+				if kv, ok := n.(*ast.KeyValueExpr); ok {
+					if k := x.Src(kv.Key); k == "SnapshotIndex" || k == "SnapshotTerm" {
+						rec = append(rec, k+": "+x.Src(kv.Value))
+					}
+				}
+				return true
+			})
+			x.DefStrings("fingerprintRecordsSnapshot", rec)
 		} else {
 			x.DefStrings("fingerprintSteps", nil)
+			x.DefStrings("fingerprintRecordsSnapshot", nil)
 		}
 		x.Comment("store/store.go Open: recovery request checked before the fingerprint is trusted; recovery before the database is created; WAL staging removed")
 		if fd := x.Func("store", "Store", "Open"); fd != nil {
-			x.DefStrings("openSteps", x.callSeq(fd.Body, "snapshot.NewStore", "snapshotStore.Len", "fp.ReadFromFile", "fsutil.ModTimeSize", "rlog.New",
+			x.DefStrings("openSteps", x.callSeq(fd.Body, "snapshot.NewStore", "snapshotStore.Len", "fp.ReadFromFile", "fsutil.ModTimeSize", "snapshotStore.LatestIndexTerm", "rlog.New",
 				"raft.ReadConfigJSON", "recoverNode", "RecoverNode", "createDBOnDisk", "os.RemoveAll", "raft.NewRaft"))
 			pp, fr := token.NoPos, firstPos(x, fd.Body, "fp.ReadFromFile")
 			ast.Inspect(fd.Body, func(n ast.Node) bool {
@@ -249,8 +261,20 @@ func init() {
 				return true
 			})
 			x.DefOptBool("openPeersCheckedBeforeFingerprint", pp < fr, pp != token.NoPos && fr != token.NoPos)
+			// the fast path is left when the marker is for another snapshot than the newest one
+			var chk []string
+			ast.Inspect(fd.Body, func(n ast.Node) bool {
+				if is, ok := n.(*ast.IfStmt); ok {
+					if c := x.Src(is.Cond); strings.Contains(c, "fp.SnapshotIndex") {
+						chk = append(chk, c)
+					}
+				}
+				return true
+			})
+			x.DefStrings("openMarkerSnapshotCheck", chk)
 		} else {
 			x.DefStrings("openSteps", nil)
+			x.DefStrings("openMarkerSnapshotCheck", nil)
 			x.DefOptBool("openPeersCheckedBeforeFingerprint", false, false)
 		}
 		x.Comment("store/store.go createDBOnDisk: WAL files are always removed")
